@@ -102,7 +102,7 @@ func runC11(r *rt.Runner) {
 		// bound non-terminating generated programs; those are skipped
 		ref0, err0, tr0 := runTraced(text, 100000, false)
 		ops := ref0.NumOps
-		if ops > 3000 || err0 == postscript.ErrExecutionLimitExceeded {
+		if ops > 4000 || err0 == postscript.ErrExecutionLimitExceeded {
 			c.Skip("more than 3000 operations")
 			return
 		}
@@ -199,7 +199,7 @@ func runC11(r *rt.Runner) {
 		r.Case("runaway/"+sh.name, func(c *rt.C) {
 			c.SetDetail(func() string { return "program: " + sh.text })
 			budget := 5_000_000
-			if strings.HasPrefix(sh.name, "swallowed-") {
+			if strings.HasPrefix(sh.name, "swallowed-") || strings.HasPrefix(sh.name, "budgeted-") {
 				budget = 300_000
 			}
 			intp, err, tr := runTraced(sh.text, budget, false)
@@ -302,6 +302,26 @@ var c11CutPinned = []string{
 	"",
 	"   ",
 	"% comment only\n",
+	// programs that end at a resource limit: every budget below that point must
+	// still give the budget error (and nothing else), every budget above it the limit's error
+	"{ 1 1 } loop",
+	"{ 1 } loop",
+	"7 { dup dup } loop",
+	"1 2 3 { 3 copy } loop",
+	"{ mark } loop",
+	"/p { p 1 } def p",
+	"/p { 1 p } def 5 p",
+	"/a { b 1 } def /b { a 2 } def a",
+	"{ 1 dict begin } loop",
+	"{ userdict begin 1 } loop",
+	"errordict /typecheck { 1 (a) add } put 1 (a) add",
+	"errordict /undefined { pop 7 } put nosuchname nosuchname 8",
+	"errordict /stackoverflow { } put { 1 } loop",
+	"16777216 array",
+	"currentfile eexec\n" + hexSection("{ 1 1 } loop "),
+	"currentfile eexec\n" + hexSection("/p { p 1 } def p "),
+	"/p { currentfile eexec } def p\n" + hexSection("/x 1 def { 1 } loop "),
+	"18 { userdict begin } repeat { currentfile eexec } exec\n" + hexSection("1 2 add userdict begin "),
 }
 
 var c11Shapes = []struct {
@@ -349,6 +369,17 @@ var c11Shapes = []struct {
 	{"begin-loop-inside-eexec", "currentfile eexec\n" + hexSection("{ 1 dict begin } loop "), []string{"dictstackoverflow"}},
 	{"push-loop-inside-eexec", "currentfile eexec\n" + hexSection("{ 1 } loop "), []string{"stackoverflow"}},
 	{"recursion-inside-eexec", "currentfile eexec\n" + hexSection("/p { p 1 } def p "), []string{"execstackoverflow"}},
+	// chains of executable names bound to each other: every step is an operation, so the budget ends them
+	{"budgeted-name-cycle", "/a { a } 0 get def a", []string{"(budget)", "execstackoverflow"}},
+	{"budgeted-name-cycle-2", "/a { b } 0 get def /b { a } 0 get def 1 a", []string{"(budget)", "execstackoverflow"}},
+	{"budgeted-name-cycle-in-dict", "<< /a { c } 0 get /c { a } 0 get >> begin a", []string{"(budget)", "execstackoverflow"}},
+	{"budgeted-name-cycle-put", "userdict /a { a } 0 get put { a } exec", []string{"(budget)", "execstackoverflow"}},
+	// a procedure body that never ends: its elements must not pile up without bound
+	{"open-body-100000", "{ " + strings.Repeat("0 ", 100000), []string{"stackoverflow", "limitcheck", "syntaxerror"}},
+	{"open-body-nested-100000", "/p { 1 { " + strings.Repeat("0 0 (a) /b ", 25000), []string{"stackoverflow", "limitcheck", "syntaxerror"}},
+	{"long-body-70000", "{ " + strings.Repeat("0 ", 70000) + "} pop 1", []string{"stackoverflow", "limitcheck"}},
+	{"open-array-100000", "[ " + strings.Repeat("0 ", 100000), []string{"stackoverflow", "limitcheck"}},
+	{"open-dict-100000", "<< " + strings.Repeat("/k 0 ", 50000), []string{"stackoverflow", "limitcheck"}},
 	// error handlers that swallow the error while the failing operation sits in a
 	// loop. How such a run ends is not prescribed (this interpreter resumes after
 	// the innermost enclosing operator, so the loop may end or run until the
